@@ -25,6 +25,9 @@ Line protocol of C14.
   cmds: `E N S M R D` (EHLO NOOP RSET MAIL RCPT DATA+body), `Ap:<authzid>:<u>:<p>` (AUTH PLAIN), `Al:<u>:<p>` (AUTH LOGIN),
   `Ax` (AUTH with an unknown mechanism); the outcome of each SASL exchange is computed by the credential model
   for an endpoint whose only account is <user>/<password>.   answer: reply codes.
+  Every cmd may carry a suffix `/r` `/t` `/x`: what the endpoint's early (connection-level) check answers if it is run
+  while the command is processed (rejection 550 / temporary failure 451 / error without SMTP annotations 554; no suffix:
+  it passes).  In the model only the greeting that gives the connection its session consults it.
 -/
 namespace Driver.C14
 open MaddyVerif.Auth Driver
@@ -198,15 +201,29 @@ def gateCfg (login : Bool) : Cfg :=
 
 def gateTbl (u : Name) (p : Pw) : Tbl := Tbl.empty.set u (.sha256, p)
 
-def parseCmd (c : Cfg) (t : Tbl) (tok : String) : Option Cmd :=
+/-- the reply code `wrapErr` gives the error of the scripted early check: `r` an `exterrors.SMTPError` with code 550,
+`t` one with code 451, `x` an error without SMTP annotations (554 "Internal server error") -/
+def earlyVerdict? : String → Option EarlyVerdict
+  | "" => some none | "r" => some (some 550) | "t" => some (some 451) | "x" => some (some 554)
+  | _ => none
+
+def parseCmd (c : Cfg) (t : Tbl) (tok0 : String) : Option Cmd :=
+  -- `<cmd>/<v>`: the verdict of the early checks while the command is processed; only a greeting consults them
+  let (tok, vs) := match tok0.splitOn "/" with
+    | [a, b] => (a, b)
+    | _ => (tok0, "")
+  match earlyVerdict? vs with
+  | none => none
+  | some v =>
   match tok with
-  | "E" => some .ehlo | "N" => some .noop | "S" => some .rset
+  | "E" => some (.ehlo v) | "N" => some .noop | "S" => some .rset
   | "M" => some .mail | "R" => some .rcpt | "D" => some .data
   | "Ax" => some (.auth .unsupported)
   | _ =>
     match tok.splitOn ":" with
     | ["Ap", a, u, p] => do pure (.auth (plain c t (← unhexRunes? a) (← unhexRunes? u) (← unhexBytes? p)))
-    | ["Al", u, p] => do pure (.auth (login c t (← unhexRunes? u) (← unhexBytes? p)))
+    -- the gate harness sends AUTH LOGIN without initial response: the exchange goes through the model of the LOGIN server
+    | ["Al", u, p] => do pure (.auth (loginVia c t false (← unhexRunes? u) (← unhexBytes? p)))
     | _ => none
 
 def handle : List String → String
